@@ -1,7 +1,8 @@
 // native replay for proof global_operators.routing (C06 / C05): each global operator new / delete form and C entry point of the
 // real MemoryLeakWarningPlugin.cpp must reach the slot of its own family exactly once with the caller's arguments.
-// usage: C06_global form=<0..18> [size= line= iline=]
+// usage: C06_global form=<0..20> (19, 20: the C++14 sized release forms) [size= line= iline=]
 // REPLAY-INCLUDES: src/CppUTest/MemoryLeakWarningPlugin.cpp
+// REPLAY-STD: c++14
 #include "src/CppUTest/MemoryLeakWarningPlugin.cpp"
 #include "replay.h"
 #include <new>
@@ -51,6 +52,10 @@ int main(int argc, char **argv)
     case 15: ::operator delete[](mem, std::nothrow); want = 7; isrel = true; break;
     case 16: r = cpputest_malloc_location_with_leak_detection(size, file, line); want = 8; loc = true; break;
     case 17: r = cpputest_realloc_location_with_leak_detection(mem, size, file, line); want = 9; loc = true; break;
+#if __cplusplus >= 201402L
+    case 19: ::operator delete(mem, size); want = 6; isrel = true; break;
+    case 20: ::operator delete[](mem, size); want = 7; isrel = true; break;
+#endif
     default: cpputest_free_location_with_leak_detection(mem, file, line); want = 10; isrel = true; loc = true; break;
     }
     operator_new_fptr = s0; operator_new_nothrow_fptr = s1; operator_new_debug_fptr = s2; operator_new_array_fptr = s3; operator_new_array_nothrow_fptr = s4; operator_new_array_debug_fptr = s5;
